@@ -226,7 +226,8 @@ def chain(rng, nlayers, labels, root='map', nulls=True, hostile=0.15, fold=None)
 
 FEATURES = ['merge-map', 'merge-map-deep', 'merge-str', 'replace-map', 'replace-str', 'merge-list', 'merge-listpath', 'cross-merge', 'cross-replace',
             'interp', 'env', 'encode', 'encode-value', 'decode', 'repeat-doc', 'repeat-doc-named', 'repeat-list', 'repeat-map', 'output-true',
-            'output-false', 'template-doc', 'nested-merge-in-target', 'list-entry-merge-map']
+            'output-false', 'template-doc', 'nested-merge-in-target', 'list-entry-merge-map', 'list-in-list-merge-map', 'merge-host-empty-containers',
+            'null-values']
 
 
 def evaldoc(rng, idx, ndocs, labels, nfeat=None):
@@ -285,4 +286,10 @@ def evaldoc(rng, idx, ndocs, labels, nfeat=None):
             d['h10'] = {'$replace': 't.n'}
         elif f == 'list-entry-merge-map':
             d['h11'] = [{'$merge': 't.z', 'sib': 1}, {'plain': 1}]
+        elif f == 'list-in-list-merge-map':
+            d['h12'] = [[{'$merge': 't.z', 'sib': 1}], [[{'deep': {'$merge': 't', 'k': 1}}]], 'x']
+        elif f == 'merge-host-empty-containers':
+            d['h13'] = {'$merge': 't', 'z': {}, 'y': [], 'own': {}}
+        elif f == 'null-values':
+            d['nul'] = {'a': None, 'b': [None, 1], 'c': {'$merge': 't.z', 'n': None}}
     return d
